@@ -6,6 +6,7 @@
   for every state, every argument byte string and every cache setting (the caches are part of the state and
   do not appear in the conclusions).
 -/
+import Absnfs.BytesSpec
 import Absnfs.ServerData
 import Absnfs.ServerData2
 import Absnfs.ServerData3
@@ -113,5 +114,34 @@ theorem guarded_setattr_changes_nothing (s : St) (c : Ctx) (args : Bytes) (h : N
 /-- READ and WRITE refuse a range only when offset + count leaves the 64-bit range (the model's `off + cnt ≥ u64Max`
     test); a range that passes 2^63-1 from a valid offset is "beyond EOF" (regenerated from handleRead / handleWrite) -/
 theorem gen_range_guards : (Gen.readRangeGuardIsUint64 && Gen.writeRangeGuardIsUint64) = true := by decide
+
+/-- The byte-array model of the property as a specification (a size and a byte at every position), and the
+    refinement for every history of WriteAt / Truncate calls, of any length: the backend model's bytes stand for
+    exactly what the specification computes -/
+theorem file_refines_byte_array_spec (d : Bytes) (ops : List Fs.FileOp) :
+    Fs.absBytes (ops.foldl Fs.applyFileOp d) = ops.foldl Fs.Spec.step (Fs.absBytes d) := Fs.absBytes_run d ops
+
+/-- READ's data is determined by the specification: min(count, size - offset) bytes, byte i = spec byte offset+i -/
+theorem read_data_from_spec (d : Bytes) (off cnt : Nat) :
+    (Fs.slice d off cnt).length = min cnt ((Fs.absBytes d).size - off) ∧
+    ∀ i, i < cnt → (Fs.slice d off cnt).getD i 0 = (Fs.absBytes d).byte (off + i) := Fs.slice_from_spec d off cnt
+
+/-- nothing is lost in the abstraction: byte strings that stand for the same specification file are equal -/
+theorem spec_determines_bytes {a b : Bytes} (h : Fs.absBytes a = Fs.absBytes b) : a = b := Fs.absBytes_injective h
+
+/-- holes are zeros: a write beyond the old end leaves zeros between the old end and its offset -/
+theorem hole_reads_zero (d : Bytes) (off : Nat) (w : Bytes) (hw : w ≠ []) (i : Nat) (h1 : d.length ≤ i) (h2 : i < off) :
+    (Fs.writeBytes d off w).getD i 0 = 0 := Fs.hole_reads_zero d off w hw i h1 h2
+
+/-- overlapping writes: the later payload decides its whole range, the earlier one keeps what lies outside it -/
+theorem overlapping_writes (d : Bytes) (o1 o2 : Nat) (w1 w2 : Bytes) (h1 : w1 ≠ []) (h2 : w2 ≠ []) (i : Nat) :
+    (Fs.writeBytes (Fs.writeBytes d o1 w1) o2 w2).getD i 0 =
+      if o2 ≤ i ∧ i < o2 + w2.length then w2.getD (i - o2) 0
+      else if o1 ≤ i ∧ i < o1 + w1.length then w1.getD (i - o1) 0 else d.getD i 0 := by
+  rw [Fs.writeBytes_getD _ _ _ _ h2, Fs.writeBytes_getD _ _ _ _ h1]
+
+/-- non-vacuity: sparse write, overlapping write, cut, extension -/
+example : [Fs.FileOp.write 3 [7, 8], .write 4 [9, 9], .trunc 5, .trunc 7].foldl Fs.applyFileOp [1] = [1, 0, 0, 7, 9, 0, 0] := by
+  decide
 
 end Props.C01
